@@ -291,3 +291,159 @@ if __name__ == "__main__":
     src, ok, notes, _ = translate()
     print(src)
     print("-- ok:", ok, notes, file=sys.stderr)
+
+
+# ------------------------------------------------------------------------------------------------
+# Parametric.__setattr__ / register_parameter / register_model  ->  lean/TTGen/C11_Setattr.lean
+# ------------------------------------------------------------------------------------------------
+def _sx_cond(e, env):
+    """symbolic value of a condition: True / False / None (not understood)"""
+    if isinstance(e, ast.Call) and isinstance(e.func, ast.Name) and e.func.id == "isinstance" and len(e.args) == 2 \
+            and isinstance(e.args[0], ast.Name) and e.args[0].id == env["value"] and isinstance(e.args[1], ast.Name):
+        if e.args[1].id == "AbstractParameter":
+            return env["kind"] == "param"
+        if e.args[1].id == "Model":
+            return env["kind"] == "model"
+        return None
+    if isinstance(e, ast.Compare) and len(e.ops) == 1 and len(e.comparators) == 1:
+        l, op, r = e.left, e.ops[0], e.comparators[0]
+        if isinstance(op, (ast.Is, ast.IsNot)) and isinstance(l, ast.Name) and l.id in env["dictvars"] \
+                and isinstance(r, ast.Constant) and r.value is None:
+            return isinstance(op, ast.IsNot)  # the object is initialised: its dictionaries exist
+        if isinstance(op, (ast.In, ast.NotIn)) and isinstance(l, ast.Name) and l.id == env["name"] \
+                and isinstance(r, ast.Attribute) and _is_self_attr(r, "__dict__"):
+            return env["inDict"] if isinstance(op, ast.In) else not env["inDict"]
+        return None
+    if isinstance(e, ast.UnaryOp) and isinstance(e.op, ast.Not):
+        v = _sx_cond(e.operand, env)
+        return None if v is None else not v
+    if isinstance(e, ast.BoolOp):
+        vs = [_sx_cond(v, env) for v in e.values]
+        if any(v is None for v in vs):
+            return None
+        return all(vs) if isinstance(e.op, ast.And) else any(vs)
+    return None
+
+
+def _sx_register(cls, meth, env_kind):
+    """acts of Parametric.register_parameter / register_model"""
+    fn, _ = _resolve(cls, meth)
+    if fn is None:
+        return ["raise"]
+    node = _fn_ast(fn)
+    args = [a.arg for a in node.args.args]
+    if len(args) != 3:
+        return ["unknown"]
+    _, nm, obj = args
+    acts = []
+    for st in node.body:
+        if isinstance(st, ast.Expr) and isinstance(st.value, ast.Constant):
+            continue
+        if (isinstance(st, ast.Assign) and len(st.targets) == 1 and isinstance(st.targets[0], ast.Subscript)
+                and _is_self_attr(st.targets[0].value) and isinstance(st.targets[0].slice, ast.Name)
+                and st.targets[0].slice.id == nm and isinstance(st.value, ast.Name) and st.value.id == obj):
+            acts.append({"_parameters": "storeParams", "_models": "storeModels"}.get(st.targets[0].value.attr, "unknown"))
+            continue
+        if (isinstance(st, ast.Expr) and isinstance(st.value, ast.Call) and isinstance(st.value.func, ast.Attribute)
+                and isinstance(st.value.func.value, ast.Name) and st.value.func.value.id == obj
+                and len(st.value.args) == 1 and isinstance(st.value.args[0], ast.Name) and st.value.args[0].id == "self"):
+            acts.append({"add_parameter_listener": "addParamListener", "add_model_listener": "addModelListener"}
+                        .get(st.value.func.attr, "unknown"))
+            continue
+        acts.append("unknown")
+    return acts
+
+
+def _sx_block(cls, stmts, env):
+    """-> (acts, finished)"""
+    acts = []
+    for st in stmts:
+        if isinstance(st, (ast.Import, ast.ImportFrom, ast.Pass)):
+            continue
+        if isinstance(st, ast.Expr) and isinstance(st.value, ast.Constant):
+            continue
+        if isinstance(st, ast.FunctionDef):
+            env["helpers"].add(st.name)
+            continue
+        if isinstance(st, ast.Return):
+            return acts, True
+        if isinstance(st, ast.Raise):
+            return acts + ["raise"], True
+        if isinstance(st, ast.Assign) and len(st.targets) == 1 and isinstance(st.targets[0], ast.Name):
+            v = st.value
+            if (isinstance(v, ast.Call) and isinstance(v.func, ast.Attribute) and v.func.attr == "get"
+                    and _is_self_attr(v.func.value, "__dict__")):
+                env["dictvars"].add(st.targets[0].id)
+                continue
+            acts.append("unknown")
+            continue
+        if isinstance(st, ast.If):
+            c = _sx_cond(st.test, env)
+            if c is None:
+                acts.append("unknown")
+                continue
+            a, fin = _sx_block(cls, st.body if c else st.orelse, env)
+            acts += a
+            if fin:
+                return acts, True
+            continue
+        if isinstance(st, ast.Expr) and isinstance(st.value, ast.Call):
+            f = st.value.func
+            if isinstance(f, ast.Name) and f.id in env["helpers"] and f.id == "remove_from":
+                for a in st.value.args:
+                    if _is_self_attr(a, "__dict__"):
+                        acts.append("removeFromDict")
+                    elif _is_self_attr(a, "_parameters"):
+                        acts.append("removeFromParams")
+                    elif _is_self_attr(a, "_models"):
+                        acts.append("removeFromModels")
+                    else:
+                        acts.append("unknown")
+                continue
+            if _is_self_attr(f) and f.attr in ("register_parameter", "register_model"):
+                acts += _sx_register(cls, f.attr, env["kind"])
+                continue
+            if (isinstance(f, ast.Attribute) and f.attr == "__setattr__" and isinstance(f.value, ast.Name)
+                    and f.value.id == "object"):
+                acts.append("storeDict")
+                continue
+        acts.append("unknown")
+    return acts, False
+
+
+def translate_setattr():
+    """symbolic execution of Parametric.__setattr__ for every (kind of value, name already in the instance
+    dictionary) -> (lean source, ok, table)"""
+    from torchtree.core.parametric import Parametric
+
+    table = []
+    ok = True
+    note = ""
+    try:
+        fn, _ = _resolve(Parametric, "__setattr__")
+        node = _fn_ast(fn)
+        args = [a.arg for a in node.args.args]
+        for kind in ("param", "model", "other"):
+            for in_dict in (False, True):
+                env = {"kind": kind, "inDict": in_dict, "name": args[1], "value": args[2], "dictvars": set(), "helpers": set()}
+                acts, _ = _sx_block(Parametric, node.body, env)
+                table.append((kind, in_dict, acts))
+                if "unknown" in acts:
+                    ok = False
+    except (Unrec, OSError, TypeError, SyntaxError, IndexError) as e:
+        ok = False
+        note = f"UNRECOGNISED {type(e).__name__}: {e}"
+        table = [(k, d, ["unknown"]) for k in ("param", "model", "other") for d in (False, True)]
+    rows = ",\n".join(
+        f"  ⟨.{k}, {'true' if d else 'false'}, [{', '.join('.' + a for a in acts)}]⟩" for k, d, acts in table)
+    lean = (
+        "import TTModel.C11_Setattr\n"
+        "/-! GENERATED by harness/translators/tr_wiring.py (translate_setattr) by symbolic execution of\n"
+        "    Parametric.__setattr__ (with register_parameter / register_model inlined) for every kind of assigned value\n"
+        "    and for a name that is / is not already in the instance dictionary — do not edit.\n"
+        f"    {note}\n-/\n"
+        "namespace TTGen.C11_Setattr\nopen TT.C11\n\n"
+        f"def translatorOk : Bool := {'true' if ok else 'false'}\n\n"
+        "def table : List SetattrCase := [\n" + rows + "\n]\n\nend TTGen.C11_Setattr\n"
+    )
+    return lean, ok, table
